@@ -280,7 +280,8 @@ def apiStep (s : Session) (d : Dir) (pos : Nat) (ix : Index) : ApiOp → Session
   | .newOid => if s.ro then (s, .readOnly, []) else (s, .ok, [])
   | .pack =>
     if s.ro then (s, .readOnly, [])
-    else (s, .ok, [.create ".pack", .rename "" ".old", .rename ".pack" ""] ++ saveIndexEvents s.ro d pos ix)
+    else (s, .ok, [.create ".pack", .remove ".index", .rename "" ".old", .rename ".pack" ""]
+                    ++ saveIndexEvents s.ro d pos ix)   -- `_clear_index()` precedes the swap (repaired code)
   | .tpcBegin =>
     if s.ro then (s, .readOnly, [])
     else if s.inTxn then (s, .storageTransaction, [])
